@@ -336,7 +336,7 @@ func udistReplay(in io.Reader, raw bool, args []string) (*Summary, error) {
 					} else if tu-1 > top {
 						wantB.SetInt64(1)
 					}
-					for _, x := range []float64{math.Nextafter(u, math.Inf(-1)), u - 1e-12, u - 1e-10} {
+					for _, x := range []float64{math.Nextafter(u, math.Inf(-1)), u - 1e-10} {
 						if got := d.CDF(x); !closeRat(got, wantB, 1e-12, 1e-9) {
 							sum.viol("CDF-below-grid", c, "T=%v: CDF(%.17g)=%.12g want %.12g (the value below the grid point %v)", d.T, x, got, rf(wantB), u)
 						}
